@@ -241,3 +241,47 @@ Definition agree_analysis (tol : Q) (o : outcome) (err : nat)
   end.
 Definition agree_summary (tol : Q) (filled_cols : list series) (obs : list (list (option Q))) : bool :=
   all2 (fun col o => all2 (agree_res tol) (summary_row col) o) filled_cols obs.
+
+(* ---- the result frame read KEY BY KEY ----
+   The per-list frame carries the output keys on its index.  The observation is the frame as it is
+   (index tuples and rows in frame order); it is matched against the model by key, not by position:
+   every observed (key, row) consumes the first not yet consumed model row stored under that key, and
+   nothing may be left over.  A frame whose rows sit under other lists' keys fails; a frame that is
+   consistently re-ordered (rows moved together with their keys) passes. *)
+Definition keyed_table (outputs : list (list Z * ilist)) (tbl : list (list res)) : list (list Z * list res) :=
+  combine (map fst outputs) tbl.
+
+Fixpoint take_key (k : list Z) (rows : list (list Z * list res)) : option (list res * list (list Z * list res)) :=
+  match rows with
+  | [] => None
+  | (k', r) :: rest =>
+      if key_eqb k' k then Some (r, rest)
+      else match take_key k rest with
+           | Some (r', rest') => Some (r', (k', r) :: rest')
+           | None => None
+           end
+  end.
+
+Fixpoint agree_keyed (tol : Q) (model : list (list Z * list res)) (index : list (list Z))
+    (obs : list (list (option Q))) : bool :=
+  match index, obs with
+  | [], [] => match model with [] => true | _ => false end
+  | k :: ir, o :: orest =>
+      match take_key k model with
+      | Some (r, rest) => all2 (agree_res tol) r o && agree_keyed tol rest ir orest
+      | None => false
+      end
+  | _, _ => false
+  end.
+
+Definition agree_analysis_keyed (tol : Q) (outputs : list (list Z * ilist)) (o : outcome) (err : nat)
+    (index : list (list Z)) (raw filled : list (list (option Q))) (globals : list (option Q)) : bool :=
+  match o, err with
+  | EValue, 1%nat => true
+  | EType, 2%nat => true
+  | OK a, 0%nat =>
+      agree_keyed tol (keyed_table outputs (list_metrics_of a false)) index raw
+      && agree_keyed tol (keyed_table outputs (list_metrics_of a true)) index filled
+      && all2 (agree_res tol) (a_globals a) globals
+  | _, _ => false
+  end.
